@@ -293,7 +293,9 @@ def run(module, cfg=None, workers=16, env=None, timeout=600, metadir=None, cover
         bad = [l for l in out.splitlines() if l.startswith("Error:") or "Exception" in l and "at " not in l]
         finished = ("Model checking completed" in out) or (simulate and (timed_out or "Finished in" in out or "simulation" in out.lower()))
         if bad or not finished:
-            raise MachineryFailure("TLC failed on %s/%s (rc=%s)\n%s" % (module, cfg, rc, out[-4000:]))
+            ls = out.splitlines()
+            k = next((i for i, l in enumerate(ls) if l.startswith("Error:")), max(0, len(ls) - 40))
+            raise MachineryFailure("TLC failed on %s/%s (rc=%s)\n%s" % (module, cfg, rc, "\n".join(ls[k:k + 40])))
     if keep_out:
         r.out = out
     return r
